@@ -144,6 +144,7 @@ thread_local! {
 }
 
 pub fn install_panic_hook() {
+    crate::logsink::install_from_env();
     let default = panic::take_hook();
     panic::set_hook(Box::new(move |info| {
         let quiet = QUIET.with(|q| *q.borrow() > 0);
@@ -727,6 +728,16 @@ impl Report {
                 .collect::<Vec<_>>()),
         );
         coverage.insert("inconclusive".into(), json!(self.inconclusive));
+        coverage.insert(
+            "environment".into(),
+            json!({
+                "TZ": std::env::var("TZ").unwrap_or_default(),
+                "logger": {"level": crate::logsink::level_name(),
+                           "records_formatted": crate::logsink::RECORDS.load(std::sync::atomic::Ordering::Relaxed),
+                           "bytes_formatted": crate::logsink::BYTES.load(std::sync::atomic::Ordering::Relaxed)},
+                "debug_assertions": cfg!(debug_assertions),
+            }),
+        );
         for (k, v) in &self.extra {
             coverage.insert(k.clone(), v.clone());
         }
